@@ -21,7 +21,13 @@ RELATED = {  # properties whose checks are run against a seed of the given prope
     "C17": ["C17", "C09"], "C18": ["C18", "C08"], "C19": ["C19", "C08", "C05"], "C20": ["C20", "C04", "C01", "C07"],
 }
 
+import threading
+GITLOCK = threading.Lock()
 def sh(cmd, cwd, timeout=900):
+    if "git -C /repo worktree" in cmd:
+        with GITLOCK:
+            p = subprocess.run(cmd, cwd=cwd, env=ENV, shell=True, stdout=subprocess.PIPE, stderr=subprocess.STDOUT, text=True, timeout=timeout)
+            return p.returncode, p.stdout
     p = subprocess.run(cmd, cwd=cwd, env=ENV, shell=True, stdout=subprocess.PIPE, stderr=subprocess.STDOUT, text=True, timeout=timeout)
     return p.returncode, p.stdout
 
@@ -124,13 +130,18 @@ def main():
         return confirm(*s)
     with concurrent.futures.ThreadPoolExecutor(max_workers=6) as ex:
         results = list(ex.map(conf, seeds))
+    todo = []
     for (prop, k), res in zip(seeds, results):
         if not res: continue
         ok = all(res["confirmed"].get(x) for x in ["applies_to_snapshot", "build_vet", "suite_green_with_patch", "demo_fails_with_patch", "demo_passes_without_patch"])
         res["kept"] = ok
         print(prop, k, "CONFIRMED" if ok else "REJECTED", res["confirmed"], flush=True)
-        if not ok: continue
-        base, found = detect(prop, k)
+        if ok: todo.append((prop, k, res))
+    # the detection runs are independent (each in a worktree of its own): run them side by side
+    workers = int(os.environ.get("SEED_DETECT_WORKERS", "8"))
+    with concurrent.futures.ThreadPoolExecutor(max_workers=workers) as ex:
+        dets = list(ex.map(lambda t: detect(t[0], t[1]), todo))
+    for (prop, k, res), (base, found) in zip(todo, dets):
         rules = sorted(set(re.search(r"rule=(\S+)", l).group(1) for hits in found.values() for l in hits if l.startswith("FINDING")))
         res["checked_against"] = base
         res["detected"] = bool(rules)
@@ -143,6 +154,6 @@ def main():
             for d in glob.glob(f"{SRC}/{prop}/{k}/demo/*"):
                 if os.path.isfile(d): shutil.copy(d, out + "/demo/")
         json.dump(res, open(out + "/meta.json", "w"), indent=1)
-        print("   detected by:", rules or "NOTHING", flush=True)
+        print(prop, k, "   detected by:", rules or "NOTHING", flush=True)
 
 main()
